@@ -8,6 +8,8 @@ pub mod compiler;
 pub mod object;
 pub mod parser;
 pub mod vm;
+#[cfg(feature = "verif")]
+pub mod verif;
 
 use crate::{compiler::Compiler, object::Error, object::Object, parser::parse, vm::VM};
 
